@@ -76,6 +76,7 @@ type Frame struct {
 	cur     *Term
 	block   *ssa.BasicBlock
 	skip    *Term // range-skip guard produced by a Next in this block
+	blockDead bool
 	caller  *Frame
 	callPos token.Pos
 }
@@ -170,6 +171,9 @@ func (x *Exec) panicIf(fr *Frame, g *Term, kind string, p token.Pos) {
 	g = mkAnd(fr.cur, g)
 	if g.isFalse() {
 		return
+	}
+	if g == fr.cur {
+		fr.blockDead = true // the whole current path panics here
 	}
 	ag := x.alive(g)
 	if ag.isFalse() {
@@ -704,9 +708,21 @@ func (x *Exec) execBlock(fr *Frame, b *ssa.BasicBlock, l *Loop) {
 		if x.steps%2000 == 0 && !x.deadline.IsZero() && time.Now().After(x.deadline) {
 			notEncodable("symbolic execution exceeded its time budget (state explosion) in %s", fr.fn)
 		}
+		fr.blockDead = false
 		x.execInstr(fr, ins)
 		fr.cur = g
 		fr.block = b
+		if fr.blockDead {
+			// every path through this block panicked at this instruction: the rest of the block (and what it
+			// dominates) is unreachable; later instructions would only see undefined values
+			fr.blockDead = false
+			if _, isRet := ins.(*ssa.Return); !isRet {
+				for _, s := range b.Succs {
+					fr.edge[[2]int{b.Index, s.Index}] = ts.False
+				}
+				return
+			}
+		}
 	}
 }
 
@@ -817,6 +833,8 @@ func asBool(v Value) *Term {
 	switch t := v.(type) {
 	case VBool:
 		return t.t
+	case nil:
+		return ts.False // undefined: only on paths that all panicked
 	}
 	panic(fmt.Sprintf("asBool: %T", v))
 }
